@@ -1,4 +1,231 @@
-From Coq Require Import List ZArith QArith.
+(* Props.v (C14) — statements only.  Proofs: C14/Lemmas.v; model: C14/Shapes.v.
+
+   Reading.  `build_model fixed (build_backbone c) heads` follows Model.__init__ /
+   from_config (None = the constructor raises); `model_forward m st x` follows
+   Model.forward on an input of shape x = (channels, H, W), `st` being the state of
+   the MaxPool2dWithSamePadding layers (which of them still hold padding="same");
+   its first component is None when torch would raise.  `contracted heads H W` is
+   the property's right-hand side: one (channels, H/os, W/os) per head, with
+   channels = parts | 2*edges | 1.  `fixed = false` is the pinned tree, `fixed = true`
+   the repair of proposed_fixes/C14_F20_F43.diff.  `pow2 n = 2^n`.
+
+   valid_config / in_domain / selector_Fk are the booleans of Shapes.v; the harness
+   implements the same predicates in Python. *)
+From Coq Require Import List ZArith QArith Bool.
+Import ListNotations.
 From SV Require Import C14.Shapes C14.Lemmas.
-Theorem c14_placeholder : True. Proof. exact placeholder_true. Qed.
-Print Assumptions c14_placeholder.
+From SV Require C01.ConfMaps.
+Local Open Scope Z_scope.
+
+Theorem c14_pow2 : forall n, pow2 n = 2 ^ Z.of_nat n.
+Proof. exact pow2_eq. Qed.
+Print Assumptions c14_pow2.
+
+(* ---------------------------------------------------------------------------
+   The property as given is FALSE of the pinned tree: a valid configuration and an
+   input whose sides are multiples of max_stride for which assembly or the forward
+   pass raises.  One witness per defect, each falling under exactly one selector. *)
+Theorem c14_full_statement_refuted :
+  exists c heads H W, valid_config c heads = true /\ in_domain c H W = true /\
+                      meets_contract false c heads H W = false.
+Proof. exact full_statement_refuted. Qed.
+Print Assumptions c14_full_statement_refuted.
+
+(* F17: UNet, middle_block = False *)
+Theorem c14_refuted_F17 :
+  refutes (w_unet 16 (2 # 1) 16 2 false 2) (get_head MSingle 3 2 2 2) 32 48
+          [true; false; false; false; false; false].
+Proof. exact refuted_F17. Qed.
+Print Assumptions c14_refuted_F17.
+
+(* F18: UNet, convs_per_block = 1 *)
+Theorem c14_refuted_F18 :
+  refutes (w_unet 16 (2 # 1) 16 2 true 1) (get_head MSingle 3 2 2 2) 32 48
+          [false; true; false; false; false; false].
+Proof. exact refuted_F18. Qed.
+Print Assumptions c14_refuted_F18.
+
+(* F20: ConvNeXt tiny, stem_patch_stride 2, output stride 4 *)
+Theorem c14_refuted_F20 :
+  refutes (w_convnext_tiny 2 4 16) (get_head MSingle 3 2 4 4) 32 48
+          [false; false; true; false; false; false].
+Proof. exact refuted_F20. Qed.
+Print Assumptions c14_refuted_F20.
+
+(* F41: a head at max_stride *)
+Theorem c14_refuted_F41 :
+  refutes (w_unet 16 (2 # 1) 16 16 true 2) (get_head MCentroid 3 2 16 16) 32 48
+          [false; false; false; true; false; false].
+Proof. exact refuted_F41. Qed.
+Print Assumptions c14_refuted_F41.
+
+(* F42: Swin-T tiny, stem_patch_stride 4, documented max_stride 16, input 48 x 48 *)
+Theorem c14_refuted_F42 :
+  refutes (w_swint_tiny 4 4 16) (get_head MSingle 3 2 4 4) 48 48
+          [false; false; false; false; true; false].
+Proof. exact refuted_F42. Qed.
+Print Assumptions c14_refuted_F42.
+
+(* F43: UNet filters 24, rate 3/2, max_stride 64, heads at 16 and 32 *)
+Theorem c14_refuted_F43 :
+  refutes (w_unet 24 (3 # 2) 64 16 true 2) (get_head MBottomUp 3 2 16 32) 64 64
+          [false; false; false; false; false; true].
+Proof. exact refuted_F43. Qed.
+Print Assumptions c14_refuted_F43.
+
+(* ---------------------------------------------------------------------------
+   The strongest true statement: outside the six selectors the property holds for
+   EVERY valid configuration of the three backbone families (any depth, any filters
+   and rate, any stem stride, convs_per_block >= 2, both upsampling modes, any number
+   and kind of heads), EVERY input whose sides are multiples of max_stride, and EVERY
+   state of the pooling layers — i.e. whatever was called before (statelessness).
+   Unbounded: proved by induction over the encoder/decoder depth. *)
+Theorem c14_contract_partial : forall fixed c heads H W,
+  valid_config c heads = true -> in_domain c H W = true -> any_selector c heads H W = false ->
+  exists m, build_model fixed (build_backbone c) heads = Some m /\
+    forall st, fst (model_forward m st (cfg_in_channels c, H, W)) = Some (contracted heads H W).
+Proof. exact contract_partial. Qed.
+Print Assumptions c14_contract_partial.
+
+(* (c) ... and these are the shapes of the targets the data pipeline generates for
+   the same head: (channels, ceil(H/os), ceil(W/os)) *)
+Theorem c14_contract_targets : forall fixed c heads H W,
+  valid_config c heads = true -> in_domain c H W = true -> any_selector c heads H W = false ->
+  exists m, build_model fixed (build_backbone c) heads = Some m /\
+    forall st, fst (model_forward m st (cfg_in_channels c, H, W))
+               = Some (map (fun hd => target_shape hd H W) heads).
+Proof. exact contract_targets. Qed.
+Print Assumptions c14_contract_targets.
+
+(* target_shape's ceil_div is the length of C01's sampling grid (generate_confmaps) *)
+Theorem c14_target_side_is_c01_grid : forall H os : nat, (0 < os)%nat ->
+  Z.of_nat (length (C01.ConfMaps.grid H os)) = ceil_div (Z.of_nat H) (Z.of_nat os).
+Proof. exact target_side_is_c01_grid. Qed.
+Print Assumptions c14_target_side_is_c01_grid.
+
+(* ---------------------------------------------------------------------------
+   (a) in explicit form.  UNet with s stem blocks and d down blocks (max_stride
+   2^(s+d)), backbone output stride 2^b, heads at strides 2^t with b <= t < s+d,
+   rate p/q and filters = m * q^(s+d) (rate 2: any filters; rate 3/2: filters a
+   multiple of 2^(s+d)): the pinned arithmetic sizes every head correctly. *)
+Theorem c14_unet_general : forall c s d b heads (m p : Z) (q : positive) st h w,
+  unet_valid c s d b -> 2 <= u_convs_per_block c -> u_middle c = true ->
+  heads_ok heads b (s + d) ->
+  u_rate c = p # q -> 0 < p -> u_filters c = m * Zpos q ^ Z.of_nat (s + d) ->
+  0 < h -> 0 < w ->
+  exists mm, build_model false (build_unet c) heads = Some mm /\
+    fst (model_forward mm st (u_in_channels c, h * pow2 (s + d), w * pow2 (s + d)))
+    = Some (contracted heads (h * pow2 (s + d)) (w * pow2 (s + d))).
+Proof. exact unet_general_rate. Qed.
+Print Assumptions c14_unet_general.
+
+(* with the repair no condition on filters and rate remains *)
+Theorem c14_unet_general_repaired : forall c s d b heads st h w,
+  unet_valid c s d b -> 2 <= u_convs_per_block c -> u_middle c = true ->
+  heads_ok heads b (s + d) -> 0 < h -> 0 < w ->
+  exists mm, build_model true (build_unet c) heads = Some mm /\
+    fst (model_forward mm st (u_in_channels c, h * pow2 (s + d), w * pow2 (s + d)))
+    = Some (contracted heads (h * pow2 (s + d)) (w * pow2 (s + d))).
+Proof. exact unet_general_repaired. Qed.
+Print Assumptions c14_unet_general_repaired.
+
+(* ConvNeXt: four stages C, 2C, 4C, 8C (C = 4*C4), any depths, stem stride 2^e,
+   output stride 2^b <= 2^e, heads at 2^t with b <= t <= e+2, input multiple of 2^(e+3) *)
+Theorem c14_convnext_general : forall fixed c C4 ds e b heads st h w,
+  convnext_valid c C4 ds e b -> tv_heads_ok e b heads -> 0 < h -> 0 < w ->
+  exists m, build_model fixed (build_convnext c) heads = Some m /\
+    fst (model_forward m st (c_in_channels c, pow2 e * (2 * (2 * (2 * h))), pow2 e * (2 * (2 * (2 * w)))))
+    = Some (contracted heads (h * pow2 (e + 3)) (w * pow2 (e + 3))).
+Proof. exact convnext_model_forward. Qed.
+Print Assumptions c14_convnext_general.
+
+Theorem c14_swint_general : forall fixed c C4 ds nhs e b heads st h w,
+  swint_valid c C4 ds nhs e b -> tv_heads_ok e b heads -> 0 < h -> 0 < w ->
+  exists m, build_model fixed (build_swint c) heads = Some m /\
+    fst (model_forward m st (s_in_channels c, pow2 e * (2 * (2 * (2 * h))), pow2 e * (2 * (2 * (2 * w)))))
+    = Some (contracted heads (h * pow2 (e + 3)) (w * pow2 (e + 3))).
+Proof. exact swint_model_forward. Qed.
+Print Assumptions c14_swint_general.
+
+(* ---------------------------------------------------------------------------
+   (b) FINITE grid (the bound is in the statement): filters in {16,24,32,64},
+   filters_rate in {3/2, 2}, max_stride <= 64 — the presets, where filters * rate^k
+   is not integral (24 * 1.5^5 = 182.25).  The head arithmetic was evaluated on the
+   whole grid by vm_compute: it is right everywhere except at ONE point (F43), and
+   the conclusion is again for all other parameters, all inputs, all states. *)
+Theorem c14_unet_grid : forall fixed u heads H W,
+  valid_config (CfgUNet u) heads = true -> in_domain (CfgUNet u) H W = true ->
+  selector_F17 (CfgUNet u) = false -> selector_F18 (CfgUNet u) = false ->
+  selector_F41 (CfgUNet u) heads = false ->
+  In (u_filters u) [16; 24; 32; 64] -> In (u_rate u) [3 # 2; 2 # 1] -> u_max_stride u <= 64 ->
+  (forall hd, In hd heads ->
+     ~ (u_filters u = 24 /\ u_rate u = 3 # 2 /\ u_max_stride u = 64 /\ u_output_stride u = 16 /\ h_os hd = 32)) ->
+  exists m, build_model fixed (build_unet u) heads = Some m /\
+    forall st, fst (model_forward m st (u_in_channels u, H, W)) = Some (contracted heads H W).
+Proof. exact unet_grid. Qed.
+Print Assumptions c14_unet_grid.
+
+Theorem c14_grid_exception_is_real :
+  head_arith 24 (3 # 2) 6 4 5 = 181 /\ fint 24 (3 # 2) 5 = 182.
+Proof. exact grid_bad_is_bad. Qed.
+Print Assumptions c14_grid_exception_is_real.
+
+(* the repair removes F20 and F43 on their witnesses *)
+Theorem c14_repair_removes_F20_F43 :
+  meets_contract true (w_convnext_tiny 2 4 16) (get_head MSingle 3 2 4 4) 32 48 = true /\
+  meets_contract true (w_unet 24 (3 # 2) 64 16 true 2) (get_head MBottomUp 3 2 16 32) 64 64 = true.
+Proof. exact repaired_witnesses. Qed.
+Print Assumptions c14_repair_removes_F20_F43.
+
+(* ---------------------------------------------------------------------------
+   (d) the one stateful layer.  On an even side the computed pad is 0 and the
+   result does not depend on whether the layer was called before ... *)
+Theorem c14_pool_pad_zero_on_even : forall same a, 0 < a ->
+  calc_same_pad (2 * a) 2 2 1 = 0 /\ pool_side same (2 * a) = Some a.
+Proof. intros. split. apply calc_same_pad_even; assumption. apply pool_side_even; assumption. Qed.
+Print Assumptions c14_pool_pad_zero_on_even.
+
+(* ... on an odd side it does (first call: ceil, later calls: floor) *)
+Theorem c14_pool_first_call_differs_on_odd : forall a, 0 < a ->
+  pool_side true (2 * a + 1) = Some (a + 1) /\ pool_side false (2 * a + 1) = Some a.
+Proof. exact pool_side_odd_differs. Qed.
+Print Assumptions c14_pool_first_call_differs_on_odd.
+
+(* any sequence of in-domain calls on one instance, from any state: every call
+   returns what a fresh instance returns *)
+Theorem c14_call_sequences : forall fixed c heads m (inputs : list (Z * Z)),
+  valid_config c heads = true -> build_model fixed (build_backbone c) heads = Some m ->
+  Forall (fun hw => in_domain c (fst hw) (snd hw) = true /\
+                    any_selector c heads (fst hw) (snd hw) = false) inputs ->
+  forall st,
+    model_calls m st (map (fun hw => (cfg_in_channels c, fst hw, snd hw)) inputs)
+    = map (fun hw => Some (contracted heads (fst hw) (snd hw))) inputs.
+Proof. exact call_sequences. Qed.
+Print Assumptions c14_call_sequences.
+
+(* outside the domain (33 is not a multiple of 16) the same UNet encoder returns
+   different shapes on its first and on its second call: the restriction to
+   multiples of max_stride is necessary for statelessness *)
+Theorem c14_stateful_outside_domain :
+  r_calls (run (CEncoder w_u [(33, 48); (33, 48)]))
+  = [Some [(64, 3, 3); (32, 5, 6); (16, 9, 12); (8, 17, 24); (4, 33, 48)];
+     Some [(64, 2, 3); (32, 4, 6); (16, 8, 12); (8, 16, 24); (4, 33, 48)]].
+Proof. exact stateful_outside_domain. Qed.
+Print Assumptions c14_stateful_outside_domain.
+
+(* non-vacuity of the master statement's hypotheses, one per backbone *)
+Example ex_c14_unet :
+  let c := w_unet 24 (3 # 2) 32 4 true 2 in let hs := get_head MBottomUp 5 4 4 8 in
+  valid_config c hs = true /\ in_domain c 64 96 = true /\ any_selector c hs 64 96 = false /\
+  meets_contract false c hs 64 96 = true.
+Proof. exact ex_domain_unet. Qed.
+Example ex_c14_convnext :
+  let c := w_convnext_tiny 2 2 16 in let hs := get_head MBottomUp 5 4 2 4 in
+  valid_config c hs = true /\ in_domain c 32 48 = true /\ any_selector c hs 32 48 = false /\
+  meets_contract false c hs 32 48 = true.
+Proof. exact ex_domain_convnext. Qed.
+Example ex_c14_swint :
+  let c := w_swint_tiny 4 1 32 in let hs := get_head MCentroid 5 4 2 2 in
+  valid_config c hs = true /\ in_domain c 64 32 = true /\ any_selector c hs 64 32 = false /\
+  meets_contract false c hs 64 32 = true.
+Proof. exact ex_domain_swint. Qed.
